@@ -48,6 +48,9 @@ type c04Parse struct {
 	NamePaths  [][]c04Seg         `json:"name_paths,omitempty"`
 	Reader     map[string]c04RVal `json:"reader,omitempty"` // synthetic RunesValueReader (ParseIntoFile / ParseFile)
 	Probes     [][]orStep         `json:"probes,omitempty"` // observe only these deep paths
+	// what the documented rules say about the probes (index 0..MaxIndex allowed, nil padding below it)
+	ProbeWant []c04Probed `json:"probe_want,omitempty"`
+	WantErr   bool        `json:"want_err,omitempty"`
 }
 
 // c04Assign: for the precedence oracle of simple flag mixtures.
